@@ -774,6 +774,12 @@ class Repo:
                             cands.append(m)
                     elif isinstance(fn, ast.Name) and fn.id in f.module.functions:
                         cands.append(f.module.functions[fn.id])
+                if isinstance(n, ast.Attribute) and isinstance(n.value, ast.Name) and n.value.id in ('self', 'cls') and f.cls \
+                        and isinstance(n.ctx, ast.Load):
+                    # a method taken as a value (``handler = self._on_x`` ... ``handler(..)``) is reached as well
+                    mv = f.cls.find_method(n.attr)
+                    if mv is not None and mv.kind in ('method', 'staticmethod', 'classmethod'):
+                        cands.append(mv)
                 if isinstance(n, ast.Attribute) and isinstance(n.value, ast.Name) and n.value.id in ('self', 'cls') and f.cls:
                     hit = f.cls.find_attr(n.attr)
                     if hit is not None and isinstance(hit[1], ast.Dict):
